@@ -178,8 +178,21 @@ class Session(object):
         k = op["op"]
         target = tuple(op.get("target", ()))
         inline = op.get("inline")
+        # values that pre_randomize callbacks will write into non-random fields (C17): the solver must see them
+        self.bt.pre_actions = {}
+        for objpath, fname, val in op.get("pre_writes", []):
+            lo = self.live_at(inst, objpath)
+            self.bt.pre_actions.setdefault(id(lo), []).append((fname, val))
         try:
             frozen = copy.deepcopy(st)   # the call is judged against the state at the time of the call
+            if op.get("pre_writes"):
+                # pre_randomize only runs on objects that are random in the call: only their writes happen
+                probe = R.Call(self.prog, copy.deepcopy(st), "randomize", target)
+                used = set(tuple(pth) for pth, _, u in probe.objs if u)
+                for objpath, fname, val in op["pre_writes"]:
+                    if tuple(objpath) in used:
+                        fdw = R.decl_at(self.prog, frozen, list(objpath) + [fname])
+                        R.set_at(frozen, list(objpath) + [fname], R.wrap(val, fdw["w"], fdw["s"]))
             if k == "free":
                 call = R.Call(self.prog, frozen, "free", (), fields=op["fields"], inline=inline, inline_self=())
             else:
@@ -239,6 +252,15 @@ class Session(object):
         ev["leaf_models"] = lm
         ev["_keep_models"] = keep
         ev["cb_log"] = list(self.bt.log)
+        # identity of the live objects of the call's tree, for attributing callback records (M5)
+        ids = {}
+        if call is not None:
+            for opath, ost, used in call.objs:
+                try:
+                    ids[id(self.live_at(inst, list(opath)))] = (opath, used)
+                except Exception:
+                    pass
+        ev["obj_ids"] = ids
         ev["non_idle"] = non_idle()
         if exc is None:
             ev["outcome"] = "ok"
